@@ -256,7 +256,7 @@ func init() {
 		Class: func(c c37Ctx) (string, bool) {
 			return c37ClassRange(string(c.Src), c.From, c.To), strings.Count(string(c.Src), "\n") >= 1
 		},
-		Quick: 30000, Thorough: 400000,
+		Quick: 30000, Thorough: 400000, FuzzSecs: 30,
 		Timeout: 20 * time.Second,
 	})
 }
